@@ -639,6 +639,13 @@ const PAYLOADS: &[&str] = &[
     "\"><b>",
     "a && b < c > d",
     "→<→",
+    // text that looks like something a renderer might treat specially (links, addresses)
+    "https://example.com/\" onmouseover=\"alert(1)",
+    "http://a.b/?x=1&y=<2>",
+    "https://numbat.dev/'><b>",
+    "mailto:a@b\"><i>",
+    "www.example.com/<u>",
+    "javascript:alert(1)",
 ];
 
 fn payload(rng: &mut Rng) -> String {
